@@ -4,7 +4,7 @@ check("C02", "exploration",
       "sets up to the bound); those, seeded mutants/soup/nesting/faulted programs/module sets, and the programs of the generators of other "
       "checks (the well-formed random programs of C01, which must compile -- I4 --, and the permutation family of C11) are each compiled in an isolated worker "
       "process, and TLC validates every recorded event sequence as a behaviour of the protocol ending in Success or Failure with >= 1 code "
-      "(Trace_Pipeline.tla). A 5% sample and every anomalous run also go through the real `penne emit` binary.",
+      "(Trace_Pipeline.tla). A 5% sample and every anomalous run also go through the real `penne emit` binary. The recogniser of the documented grammar (SyntaxRules.tla: pushdown recogniser over token classes, verdict valid | unc | invalid(lo, hi); all class sequences up to the bound in 7 contexts, every single-token fault of the derived modules, mutated corpus files validated by TLC on the real token stream) contributes the discrepancies that belong to this property.",
       "The observation 'the process died / hung / panicked' is made by the harness, not derived by TLC; the specification supplies the "
       "protocol, the invariants and the exhaustive part of the input space. Trusted: TLC, the worker driving the library in main.rs order "
       "(cross-checked on the CLI sample). Bounds: quick = token sequences <= 2 over 86 symbols x 2 contexts, module sets <= 2 modules/2 decls, "
